@@ -691,7 +691,10 @@ def corpus_history(r, fails, tags):
              ("op_get", dict(target=("H4", "mid"))),               # H6 = H4.mid (the current one)
              ("op_get", dict(target=("H6", "leaf"))),
              ("op_set", dict(target=("H6", "leaf"), source="H1")),
-             ("op_get", dict(target=("H5", "leaf")))]
+             ("op_get", dict(target=("H5", "leaf"))),
+             ("op_set", dict(target=("H5", "leaf"), source="")),   # None through the earlier object
+             ("op_get", dict(target=("H6", "leaf"))),              # the current one must read None
+             ("op_get", dict(target=("H4", "mid")))]
     for name, kw in steps:
         before = len(c.ops)
         c.last_target = None
